@@ -1,4 +1,5 @@
 import hashlib
+import threading
 from datetime import datetime
 from functools import wraps
 
@@ -80,24 +81,30 @@ class Settings:
 
 settings = Settings()
 
+# Settings instances (shared through the settings registry), the per-locale
+# dictionaries and their caches are shared between calls and are temporarily
+# modified while parsing, so the public entry points are serialized.
+_lock = threading.RLock()
+
 
 def apply_settings(f):
     @wraps(f)
     def wrapper(*args, **kwargs):
-        mod_settings = kwargs.get("settings")
-        kwargs["settings"] = mod_settings or settings
+        with _lock:
+            mod_settings = kwargs.get("settings")
+            kwargs["settings"] = mod_settings or settings
 
-        if isinstance(kwargs["settings"], dict):
-            kwargs["settings"] = settings.replace(
-                mod_settings=mod_settings, **kwargs["settings"]
-            )
+            if isinstance(kwargs["settings"], dict):
+                kwargs["settings"] = settings.replace(
+                    mod_settings=mod_settings, **kwargs["settings"]
+                )
 
-        if not isinstance(kwargs["settings"], Settings):
-            raise TypeError(
-                "settings can only be either dict or instance of Settings class"
-            )
+            if not isinstance(kwargs["settings"], Settings):
+                raise TypeError(
+                    "settings can only be either dict or instance of Settings class"
+                )
 
-        return f(*args, **kwargs)
+            return f(*args, **kwargs)
 
     return wrapper
 
